@@ -138,7 +138,7 @@ def record(src):
     labels = src.get('labels') or _labels(r, ni + len(gs))
     if src['k'] == 'rt':
         storage = None
-        c = gen.materialize(net, labels=labels, outputs=src['outs'])
+        c = gen.clone(gen.materialize(net, labels=labels, outputs=src['outs']), {1: 1, 3: 2}.get(src['ls'] % 5, 0))
         if src.get('rev'):
             # users before operands in storage order: renamed from the input side up, every gate moves to the end
             for l in labels[ni:][::-1]:
